@@ -64,7 +64,12 @@ class FileSystemLoader(BaseLoader):
 
         for path in self.search_path:
             source_path = path.joinpath(template_path)
-            if not source_path.is_file():
+            try:
+                if not source_path.is_file():
+                    continue
+            except OSError:
+                # A name the file system can't look up, one that is too long for
+                # example, does not name a template.
                 continue
             return source_path
         raise TemplateNotFoundError(template_name)
